@@ -60,7 +60,7 @@ def make_vocab(tt):
     toks.append(dict(kind="T", tt=tt["COMMA"], lit=","))       # literal ignored for these kinds
     toks.append(dict(kind="T", tt=tt["COMMA"], lit=";"))       # equal to the previous one by tokenEqual
     toks.append(dict(kind="T", tt=tt["NEGATE"], lit="-"))
-    specs = ["Z", "T", "K", "L(Z)", "L(T)", "SPunkt#1", "SPunkt#2", "SPunkt#3", "SKreis#4", "L(SPunkt#1)", "L(SPunkt#2)",
+    specs = ["Z", "T", "K", "C", "B", "W", "L(Z)", "L(T)", "SPunkt#1", "SPunkt#2", "SPunkt#3", "SKreis#4", "L(SPunkt#1)", "L(SPunkt#2)",
              "AZahlAlias#5(Z)", "DPunkt#6(Z)", "DPunkt#7(T)", "APunkt#8(SPunkt#2)", "V", "L(AZahlAlias#5(Z))"]
     for s in specs:
         for ref in (0, 1):
@@ -197,6 +197,22 @@ def gen_histories(ck, toks, n_random):
                 h.append(("D", 99, [T[2], k]))
             h.append(("S", [T[2], perm[0], T[0]]))
             hists.append(h)
+    # exhaustive small: pairs of placeholders that are EQUAL though spelled differently (type alias vs. its target,
+    # also inside lists) among every choice of 2..3 other sibling placeholders, every insertion order: the second
+    # spelling must be rejected as a duplicate and must find the first one's value
+    vals = [i for i in P if toks[i]["ref"] == 0]
+    eqpairs = [(a, c) for a in vals for c in vals if a != c and py_tok_eq(toks[a], toks[c])]
+    others = [i for i in vals if toks[i]["spec"] in ("Z", "T", "K", "C", "B", "SPunkt#1", "L(T)", "DPunkt#6(Z)")]
+    for (a, c) in eqpairs:
+        sibs_pool = [o for o in others if not py_tok_eq(toks[o], toks[a])]
+        combos = list(itertools.combinations(sibs_pool, 2)) + (list(itertools.combinations(sibs_pool, 3)) if not ck.quick else list(itertools.combinations(sibs_pool, 3))[::4])
+        for sibs in combos:
+            for perm in itertools.permutations(list(sibs) + [a]):
+                h = [("D", n + 1, [T[2], k]) for n, k in enumerate(perm)]
+                h.append(("D", 99, [T[2], c]))
+                h.append(("L", [T[2], c]))
+                h.append(("L", [T[2], a]))
+                hists.append(h)
     n_exh = len(hists)
     # random structured histories
     for _ in range(n_random):
@@ -420,7 +436,7 @@ def main():
     ck.cov.update(dict(
         histories=len(hists), exhaustive_permutation_histories=n_exh, operations=ops_total, op_kinds=kinds, rejected_declarations=rejected,
         vocabulary=len(toks), predicate_pairs=n * n, exhaustive=False,
-        rule="histories of Declare/Lookup/Search/Copy over %d tokens (placeholders of 17 types x value/Referenz incl. three Kombinationen printed 'Punkt', aliases, definitions, lists); "
+        rule="histories of Declare/Lookup/Search/Copy over %d tokens (placeholders of 20 types x value/Referenz incl. three Kombinationen printed 'Punkt', aliases, definitions, lists); "
              "non-trivial = at least two distinct declared keys or a rejected duplicate; distinct by operation sequence; all insertion orders of every %d-subset of the print-alike pool enumerated" % (len(toks), 4 if ck.quick else 5)))
     parser_leg(ck, b)
     ck.sample(dict(history=hist_lines(hists[0]), implementation=impl[0], model=mod[0]))
